@@ -170,11 +170,15 @@ func ruleC11b(c *Ctx, rule string) {
 	c.describe(rule, "dom/pathstate: whole-query pushdown is chosen only when every output group is confined to one partition — Plan calls planClusterPushdown exactly under pushdownAllowed()==true; in pushdownAllowed every 'return true' lies on a path with (GroupByAll ∧ all parents group by all) or through the loop that returns false for a partition key missing from the group-by parameters; crosstab, sub-query ORDER/CROSSTAB/LIMIT/OFFSET and an unpartitioned table can never reach 'return true'; group-by parameters are collected with WalkOneToOneParams only and, below an enclosing group-by, only for names the enclosing level kept")
 	pl := c.need(rule, "z/planner.Plan")
 	if pl != nil {
-		pd := callsTo(pl, "z/planner.planClusterPushdown")
+		var pd []ssa.CallInstruction
+		for _, f := range withHelpers(c.P, pl) {
+			pd = append(pd, callsTo(f, "z/planner.planClusterPushdown")...)
+		}
 		c.floor(rule, "planClusterPushdown call in Plan", len(pd), 1)
 		for _, call := range pd {
+			f := call.Parent()
 			all := true
-			np, complete := pathsTo(pl.Blocks[0], call.Block(), func(p pathAtoms) bool {
+			np, complete := pathsTo(f.Blocks[0], call.Block(), func(p pathAtoms) bool {
 				ok := p.has(func(a atom) bool { return a.pos && isResultOfCall(a.v, 0, "z/planner.pushdownAllowed") })
 				if !ok {
 					all = false
@@ -184,7 +188,7 @@ func ruleC11b(c *Ctx, rule string) {
 			c.check(rule, "Plan: pushdown only when pushdownAllowed", call.Pos(), all && complete && np > 0, "every path to planClusterPushdown has pushdownAllowed()==true", "the whole query can be pushed down to the partitions on a path where pushdownAllowed did not return true: groups spanning partitions come back as several partial rows / HAVING is applied to partial aggregates")
 			// and only in cluster mode
 			g := false
-			for _, a := range guardsOf(call.Block()) {
+			for _, a := range guardsAcross(c.P, call.Block(), pl) {
 				if x, nn, ok := nilTest(a); ok && nn && isFieldLoad(x, "z/planner.Opts.QueryCluster") {
 					g = true
 				}
@@ -399,6 +403,100 @@ func ruleC11b(c *Ctx, rule string) {
 			c.bad(rule, "pushdownAllowed: "+fb.what+" forbids pushdown", pa.Pos(), "no test for "+fb.what+" found in pushdownAllowed")
 		}
 	}
+	// the sub-query clauses are tested at EVERY nested level: the tests sit in the
+	// loop over the FROM-subquery chain, on the loop's own query variable, and no
+	// 'return true' is reached from the loop header around them (except for the
+	// outermost query itself)
+	var levelLoop *loopInfo
+	var cur *ssa.Phi
+	for _, l := range loopsOf(pa) {
+		l := l
+		for _, in := range l.header.Instrs {
+			if ph, ok := in.(*ssa.Phi); ok && typeStr(ph.Type()) == "*z/sql.Query" {
+				if levelLoop == nil || len(l.body) > len(levelLoop.body) {
+					levelLoop, cur = &l, ph
+				}
+			}
+		}
+	}
+	if levelLoop == nil {
+		c.undecided(rule, "pushdownAllowed: loop over the FROM-subquery levels", pa.Pos(), "no loop with a *sql.Query induction variable found")
+		return
+	}
+	onCur := func(x ssa.Value) bool {
+		base, _, ok := fieldOf(x)
+		return ok && strip(base) == ssa.Value(cur)
+	}
+	for _, fb := range forbid {
+		if !strings.HasPrefix(fb.what, "sub-query") {
+			continue
+		}
+		var tests []*ssa.BasicBlock
+		for _, b := range pa.Blocks {
+			i := ifOf(b)
+			if i == nil || !levelLoop.body[b] {
+				continue
+			}
+			v, _ := unNot(i.Cond, true)
+			if m, _ := fb.pred(v); !m {
+				continue
+			}
+			if dependsOn(v, onCur) {
+				tests = append(tests, b)
+			}
+		}
+		if len(tests) == 0 {
+			c.bad(rule, "pushdownAllowed: "+fb.what+" is tested at every nested level", pa.Pos(), "the test for "+fb.what+" is not applied to the loop's query variable inside the loop over the FROM-subquery levels: a clause two or more levels down is pushed to the partitions, each of which applies it to its own rows")
+			continue
+		}
+		okAll := true
+		badPath := ""
+		for _, tr := range trueRets {
+			_, complete := pathsTo(levelLoop.header, tr, func(p pathAtoms) bool {
+				for _, pb := range p.blocks {
+					for _, tb := range tests {
+						if pb == tb {
+							return true
+						}
+					}
+				}
+				// the outermost query is exempt: current == query on this path
+				if p.has(func(a atom) bool {
+					b, ok := a.v.(*ssa.BinOp)
+					if !ok || (b.Op != token.EQL && b.Op != token.NEQ) {
+						return false
+					}
+					if !(strip(b.X) == ssa.Value(cur) || strip(b.Y) == ssa.Value(cur)) {
+						return false
+					}
+					eq := b.Op == token.EQL
+					if !a.pos {
+						eq = !eq
+					}
+					other := b.X
+					if strip(b.X) == ssa.Value(cur) {
+						other = b.Y
+					}
+					_, isParam := strip(other).(*ssa.Parameter)
+					return eq && isParam
+				}) {
+					return true
+				}
+				okAll = false
+				var bs []string
+				for _, pb := range p.blocks {
+					bs = append(bs, "b"+itoa(pb.Index))
+				}
+				badPath = strings.Join(bs, ">")
+				return false
+			})
+			if !complete && okAll {
+				okAll = false
+				badPath = "path enumeration incomplete"
+			}
+		}
+		c.check(rule, "pushdownAllowed: "+fb.what+" is tested at every nested level", tests[0].Instrs[len(tests[0].Instrs)-1].Pos(), okAll, "every path from the level loop's header to 'return true' passes the test (or is the outermost query)", "a nested level can reach 'return true' without its "+fb.what+" having been tested: "+badPath)
+	}
 }
 
 func init() {
@@ -411,7 +509,7 @@ func init() {
 			c.describe("C11.c", "flow: cluster plans return through addOrderLimitOffset with HAVING in between (see C09.c, C08.b)")
 			ruleC09c(c, "C11.c")
 			ruleC08b(c, "C11.c")
-		}, func(c *Ctx) { ruleC11d(c, "C11.d") }, func(c *Ctx) { ruleC11e(c, "C11.e") }, func(c *Ctx) { ruleC09e(c, "C11.f") }, func(c *Ctx) { ruleC11g(c, "C11.g") }},
+		}, func(c *Ctx) { ruleC11d(c, "C11.d") }, func(c *Ctx) { ruleC11e(c, "C11.e") }, func(c *Ctx) { ruleC09e(c, "C11.f") }, func(c *Ctx) { ruleC11g(c, "C11.g") }, func(c *Ctx) { ruleLoopCapture(c, "C11.h", "z", "z/planner") }},
 	})
 }
 
